@@ -17,20 +17,60 @@ class _No(Exception):
     pass
 
 
+_EW_CALLS = {"exp", "log", "abs", "neg", "sigmoid", "tanh", "sqrt", "softplus", "relu", "clone", "contiguous", "float", "double", "detach", "clamp", "square", "log1p", "reciprocal", "to", "type_as"}
+
+
+def _low_rank(e, r, depth=0):
+    """an operand that broadcasts against a rank-r tensor without raising the rank: a constant, a scalar
+    attribute / name, or a view / reshape to at most r written-out sizes"""
+    if const_number(e) is not None or isinstance(e, (ast.Name, ast.Attribute)):
+        return True
+    if isinstance(e, ast.Call) and isinstance(e.func, ast.Attribute) and e.func.attr in ("view", "reshape"):
+        args = e.args[0].elts if len(e.args) == 1 and isinstance(e.args[0], (ast.Tuple, ast.List)) else e.args
+        return not any(isinstance(a, ast.Starred) for a in args) and len(args) <= r
+    if isinstance(e, ast.UnaryOp):
+        return _low_rank(e.operand, r, depth + 1)
+    if isinstance(e, ast.BinOp) and depth < 6:
+        return _low_rank(e.left, r, depth + 1) and _low_rank(e.right, r, depth + 1)
+    return False
+
+
+def _ranked(e, x, r, depth=0):
+    """does the tensor expression have the rank of x? (x itself, or x combined element-wise with operands
+    that do not raise the rank)"""
+    if norm_text(e) == x:
+        return True
+    if depth > 8:
+        return False
+    if isinstance(e, ast.BinOp) and isinstance(e.op, (ast.Add, ast.Sub, ast.Mult, ast.Div)):
+        a, b = _ranked(e.left, x, r, depth + 1), _ranked(e.right, x, r, depth + 1)
+        return (a and (b or _low_rank(e.right, r))) or (b and _low_rank(e.left, r))
+    if isinstance(e, ast.UnaryOp):
+        return _ranked(e.operand, x, r, depth + 1)
+    if isinstance(e, ast.Call):
+        f = e.func
+        name = f.attr if isinstance(f, ast.Attribute) else (f.id if isinstance(f, ast.Name) else "")
+        if name in _EW_CALLS:
+            if isinstance(f, ast.Attribute) and not (isinstance(f.value, ast.Name) and f.value.id in ("torch", "F")):
+                return _ranked(f.value, x, r, depth + 1)
+            return bool(e.args) and _ranked(e.args[0], x, r, depth + 1)
+    return False
+
+
 def _val(e, x, r):
     v = const_number(e)
     if v is not None:
         return v
     if isinstance(e, ast.Call):
         f = e.func
-        if isinstance(f, ast.Attribute) and f.attr in ("dim", "ndimension") and not e.args and norm_text(f.value) == x:
+        if isinstance(f, ast.Attribute) and f.attr in ("dim", "ndimension") and not e.args and _ranked(f.value, x, r):
             return r
         if isinstance(f, ast.Name) and f.id == "len" and len(e.args) == 1:
             s = _val(e.args[0], x, r)
             if isinstance(s, list):
                 return len(s)
             raise _No()
-        if isinstance(f, ast.Attribute) and f.attr == "size" and not e.args and norm_text(f.value) == x:
+        if isinstance(f, ast.Attribute) and f.attr == "size" and not e.args and _ranked(f.value, x, r):
             return [None] * r
         if isinstance(f, ast.Name) and f.id == "__rest__" and len(e.args) == 2 and const_number(e.args[1]) is not None:
             s = _val(e.args[0], x, r)
@@ -43,9 +83,9 @@ def _val(e, x, r):
             return _val(e.args[0], x, r)
         raise _No()
     if isinstance(e, ast.Attribute):
-        if e.attr == "ndim" and norm_text(e.value) == x:
+        if e.attr == "ndim" and _ranked(e.value, x, r):
             return r
-        if e.attr == "shape" and norm_text(e.value) == x:
+        if e.attr == "shape" and _ranked(e.value, x, r):
             return [None] * r
         raise _No()
     if isinstance(e, ast.Subscript) and isinstance(e.slice, ast.Slice):
